@@ -443,11 +443,18 @@ section
 /-- the rationals with a (lawless) square root are enough to *run* the stage -/
 local instance : HasSqrt ℚ := ⟨fun x => x⟩
 
-/-- the hypotheses of `raises_bounded` are satisfiable and the boost really raises:
+/-- the boost really raises, and only above the floor (shown for α = 3/10, floor = 1/10, the values at
+    the time of writing; the theorems above are over the regenerated constants whatever they are):
     score 2 with similarity 1 becomes 2·(1 + 3/10) = 13/5; similarity 1/20 is under the floor -/
-example : boostOne (alpha : ℚ) floor (fun _ => some 1) (0, 2) = (0, 13 / 5) ∧
-    boostOne (alpha : ℚ) floor (fun _ => some (1 / 20)) (0, 2) = (0, 2) := by
-  constructor <;> (simp only [boostOne, alpha, floor, ops_ofQ, ops_ge, ops_mul, ops_add, ops_one]; norm_num [Gen.Constants.SemanticAlpha, Gen.Constants.SemanticMinScore])
+example : boostOne (3 / 10 : ℚ) (1 / 10) (fun _ => some 1) (0, 2) = (0, 13 / 5) ∧
+    boostOne (3 / 10 : ℚ) (1 / 10) (fun _ => some (1 / 20)) (0, 2) = (0, 2) := by
+  constructor <;> (simp only [boostOne, ops_ge, ops_mul, ops_add, ops_one]; norm_num)
+
+/-- the hypotheses of `raises_bounded` are satisfiable with the regenerated constants: the all-ones
+    similarity table and a one-element list -/
+example : (semanticStage (alpha : ℚ) floor (fun _ => some 1) [(0, 2)]).Pairwise (fun x y => y.2 ≤ x.2) :=
+  (raises_bounded (S := ℚ) (fun _ => some 1) (by intro _ x h; cases h; exact le_refl _) [(0, 2)]
+    (by intro r hr; simp at hr; subst hr; norm_num)).2.2.1
 end
 
 /-- cosine is not constantly 0: identical non-zero vectors have similarity 1 over the reals -/
